@@ -7,7 +7,7 @@ PAT="${1:-}"
 ISO="${ISO:-/tmp/verif-build}"
 mkdir -p "$ISO"
 if [ ! -d "$ISO/repo" ]; then git -C /repo worktree add --detach "$ISO/repo" HEAD -q || exit 2; fi
-git -C "$ISO/repo" checkout -q --detach "$(git -C /repo rev-parse HEAD)" 2>/dev/null; git -C "$ISO/repo" checkout -q -- .
+git -C "$ISO/repo" checkout -q --detach "$(git -C /repo rev-parse HEAD)" 2>/dev/null; git -C "$ISO/repo" checkout -q -- . ; git -C "$ISO/repo" clean -fdq
 mkdir -p "$ISO/verif"
 rsync -a --delete --exclude target "$HERE/sim/" "$ISO/verif/sim/"
 sed -i "s#/repo/#$ISO/repo/#g" "$ISO/verif/sim/rt/Cargo.toml" "$ISO/verif/sim/wrap-server/build.rs" "$ISO/verif/sim/wrap-client/build.rs"
@@ -18,7 +18,7 @@ for patch in "$HERE"/quiet/*.patch; do
     if [ -n "$PAT" ] && [[ "$name" != *$PAT* ]]; then continue; fi
     git -C "$ISO/repo" apply "$patch" || { echo "NOAPPLY $name"; bad=$((bad+1)); continue; }
     if (cd "$ISO/verif/sim" && cargo build --release --offline -q 2> "$ISO/build.log"); then echo "builds  $name"; else echo "BROKEN  $name"; grep -E '^error' -A7 "$ISO/build.log" | head -40; bad=$((bad+1)); fi
-    git -C "$ISO/repo" checkout -q -- .
+    git -C "$ISO/repo" checkout -q -- . ; git -C "$ISO/repo" clean -fdq
 done
 if [ "${KEEP:-0}" != "1" ]; then git -C /repo worktree remove --force "$ISO/repo"; rm -rf "$ISO"; fi
 [ $bad -eq 0 ]
